@@ -902,7 +902,7 @@ func (x *slRun) c12(seed int64, variant int) string {
 			}
 			if res.err != nil {
 				msg := slClip(slStable(slMaskIDs(res.err.Error(), v0)), 50)
-				if (narrowAttr || narrowTime) && baseOK(k) {
+				if (narrowAttr || narrowTime) && slNarrowRefusal(res.err) && baseOK(k) {
 					x.report(narrowSig(), sprintf("%s: LoadNetwork(%s) rejects the save: %v; the same network without the out-of-range values loads.%s", id, enc, res.err, narrowNote))
 				} else {
 					x.report(sprintf("c12-load-rejected:%s:%s", enc, msg), sprintf("%s: LoadNetwork(%s) of an unmodified save returned: %v", id, enc, res.err))
@@ -1086,4 +1086,15 @@ func (n *slNet) editAll() int {
 		next(e)
 	}
 	return edits
+}
+
+
+// slNarrowRefusal: the refusals a value squeezed through int32 / uint32 can cause on load — an
+// attribute whose bounds wrapped around (min > max), a default or an assigned value outside the
+// wrapped bounds.  Any other refusal of an unmodified save is NOT the known narrowing.
+func slNarrowRefusal(err error) bool {
+	var gt *acmelib.ErrGreaterThen
+	var lt *acmelib.ErrLowerThen
+	var av *acmelib.AttributeValueError
+	return errors.As(err, &gt) || errors.As(err, &lt) || (errors.As(err, &av) && errors.Is(err, acmelib.ErrOutOfBounds))
 }
